@@ -84,3 +84,67 @@ func H_C14_FrostTaprootDerive() {
 	}
 	vsym.Reach("frost-taproot-derive-checked")
 }
+
+// H_C08_FrostRefreshTaproot (field mode): FROST-Taproot key generation followed by a refresh: the x-only public key is
+// unchanged, the refreshed material is again a consistent sharing of the even-Y key, every share changes, the caller's
+// pre-refresh configuration is left as it was, and signing with refreshed material passes the BIP-340 verifier.
+func H_C08_FrostRefreshTaproot() {
+	n := vsym.Choose("n", vsym.Param("maxn", 3)) + 1
+	if n < 2 {
+		vsym.Stop()
+	}
+	ids := allIDs[:n]
+	t := vsym.Choose("t", n)
+	group := curve.Secp256k1{}
+	run := func(start func(id party.ID) protocol.StartFunc, sid string) map[party.ID]*TaprootConfig {
+		hs := map[party.ID]protocol.Handler{}
+		for _, id := range ids {
+			h, err := protocol.NewMultiHandler(start(id), []byte(sid))
+			vsym.Assert(err == nil, "session starts")
+			hs[id] = h
+		}
+		runAll(hs, ids)
+		out := map[party.ID]*TaprootConfig{}
+		for _, id := range ids {
+			r, err := hs[id].Result()
+			vsym.Assert(err == nil, "all-honest session completes")
+			out[id] = r.(*TaprootConfig)
+		}
+		return out
+	}
+	cur := run(func(id party.ID) protocol.StartFunc { return KeygenTaproot(id, ids, t) }, "keygen")
+	before := map[party.ID]curve.Scalar{}
+	oldGeneric := map[party.ID]*Config{}
+	for _, id := range ids {
+		before[id] = group.NewScalar().Set(cur[id].PrivateShare)
+		oldGeneric[id] = taprootAsGeneric(cur[id])
+	}
+	sk0 := checkSharing(oldGeneric, ids, t, "taproot keygen")
+	next := run(func(id party.ID) protocol.StartFunc { return RefreshTaproot(cur[id], ids) }, "refresh")
+	generic := map[party.ID]*Config{}
+	for _, id := range ids {
+		vsym.Assert(vsym.BytesEq(next[id].PublicKey, cur[id].PublicKey), "refresh leaves the x-only public key unchanged")
+		vsym.Assert(cur[id].PrivateShare.Equal(before[id]), "refresh leaves the caller's pre-refresh configuration unchanged")
+		if t >= 1 {
+			vsym.Assert(!next[id].PrivateShare.Equal(before[id]), "every party's share changes in a refresh")
+		}
+		generic[id] = taprootAsGeneric(next[id])
+	}
+	sk := checkSharing(generic, ids, t, "after taproot refresh")
+	vsym.Assert(sk.Equal(sk0), "refresh leaves the shared secret unchanged")
+	signers := ids[:t+1]
+	msg := []byte("0123456789abcdef0123456789abcdef")
+	sh := map[party.ID]protocol.Handler{}
+	for _, id := range signers {
+		h, err := protocol.NewMultiHandler(SignTaproot(next[id], signers, msg), []byte("sign"))
+		vsym.Assert(err == nil, "sign starts")
+		sh[id] = h
+	}
+	runAll(sh, signers)
+	for _, id := range signers {
+		r, err := sh[id].Result()
+		vsym.Assert(err == nil, "signing with refreshed taproot material completes")
+		vsym.Assert(bip340Verify(next[ids[0]].PublicKey, msg, []byte(r.(taproot.Signature))), "signature passes BIP-340 verification under the unchanged key")
+	}
+	vsym.Reach("frost-taproot-refresh-checked")
+}
